@@ -1,4 +1,5 @@
 import GnoVerif.Proofs.C38Meta
+import GnoVerif.Spec.C38
 /-! Helper lemmas for C38: framing — lines, round trip, truncation. -/
 namespace GnoVerif.C38
 open GnoVerif
@@ -18,9 +19,6 @@ theorem ofBe32_be32 (c : BitVec 32) :
   simp
 
 /-! #### one line -/
-
-/-- the text of a data line, without its newline -/
-def msgText (p : Bytes) : Bytes := Base64.encode (be32 (Crc32c.crc32c p) ++ p)
 
 theorem encodeMsg_eq (p : Bytes) : encodeMsg p = msgText p ++ [10] := rfl
 
@@ -202,4 +200,134 @@ theorem goodItem_written (cfg : Cfg) (hmax : 0 < cfg.maxSize) (items : List Item
     have := hacc hmax
     omega
   | mark h => exact hmark h hmem
+/-! #### acceptance of a data line -/
+
+theorem readLine_msg_inv {cfg : Cfg} {l p : Bytes} (h : readLine cfg l = .msg p) :
+    ∃ a b c d, Base64.decode l = some (a :: b :: c :: d :: p) ∧ Crc32c.crc32c p = ofBe32 a b c d ∧
+      p ≠ [] ∧ (p.length : Int) ≤ cfg.maxSize ∧ cfg.bodyOK p = true ∧ l.head? ≠ some 35 := by
+  unfold readLine at h
+  split at h
+  · cases h
+  · rename_i c rest
+    split at h
+    · split at h <;> cases h
+    · rename_i hc
+      split at h
+      · cases h
+      · rename_i a b c2 d q hdec
+        split at h
+        · cases h
+        · rename_i h1
+          split at h
+          · cases h
+          · rename_i h2
+            split at h
+            · cases h
+            · rename_i h3
+              split at h
+              · cases h
+              · rename_i h4
+                cases h
+                refine ⟨a, b, c2, d, hdec, ?_, ?_, by omega, by simpa using h4, ?_⟩
+                · simpa using h3
+                · intro e; simp [e] at h2
+                · simpa using hc
+      · cases h
+
+theorem decodeGroups_none_of_mem : ∀ (l : Bytes) (c : UInt8), c ∈ l → Base64.decChar c = none →
+    Base64.decodeGroups l = none := by
+  intro l
+  induction l using Base64.decodeGroups.induct with
+  | case1 c0 c1 c2 c3 rest v0 v1 v2 v3 h0 h1 h2 h3 out hout ih =>
+    intro c hc hn
+    simp only [List.mem_cons] at hc
+    rcases hc with rfl | rfl | rfl | rfl | hc
+    · simp_all
+    · simp_all
+    · simp_all
+    · simp_all
+    · rw [ih c hc hn] at hout; cases hout
+  | case2 c0 c1 c2 c3 rest v0 v1 v2 v3 h0 h1 h2 h3 hout ih =>
+    intro c hc hn
+    simp [Base64.decodeGroups, h0, h1, h2, h3, hout]
+  | case3 c0 c1 c2 c3 rest hx =>
+    intro c hc hn
+    unfold Base64.decodeGroups
+    split
+    · rename_i v0 v1 v2 v3 h0 h1 h2 h3
+      exact absurd h3 (hx _ _ _ _ h0 h1 h2)
+    · rfl
+  | case4 c0 c1 c2 v0 v1 v2 h0 h1 h2 =>
+    intro c hc hn
+    simp only [List.mem_cons, List.not_mem_nil, or_false] at hc
+    rcases hc with rfl | rfl | rfl <;> simp_all
+  | case5 c0 c1 c2 hx =>
+    intro c hc hn
+    unfold Base64.decodeGroups
+    split
+    · rename_i v0 v1 v2 h0 h1 h2
+      exact absurd h2 (hx _ _ _ h0 h1)
+    · rfl
+  | case6 c0 c1 v0 v1 h0 h1 =>
+    intro c hc hn
+    simp only [List.mem_cons, List.not_mem_nil, or_false] at hc
+    rcases hc with rfl | rfl <;> simp_all
+  | case7 c0 c1 hx =>
+    intro c hc hn
+    unfold Base64.decodeGroups
+    split
+    · rename_i v0 v1 h0 h1
+      exact absurd h1 (hx _ _ h0)
+    · rfl
+  | case8 c0 => intro c hc hn; rfl
+  | case9 => intro c hc hn; cases hc
+
+theorem msgText_alpha (p : Bytes) : ∀ c ∈ msgText p, Base64.IsAlpha c := Base64.encode_alpha _
+
+theorem msgText_ne_nil (p : Bytes) : msgText p ≠ [] := Base64.encode_ne_nil (by simp [be32])
+
+theorem msgText_head_ne_hash (p : Bytes) : (msgText p).head? ≠ some 35 := Base64.head_encode_ne_hash _
+
+/-- A line that is not a meta line and whose base64 text does not decode is reported as corruption. -/
+theorem readLine_corrupt_of_decode_none (cfg : Cfg) (l : Bytes) (hh : l.head? ≠ some 35)
+    (hd : Base64.decode l = none) : readLine cfg l = .corrupt := by
+  unfold readLine
+  split
+  · rfl
+  · rename_i c rest
+    have hc : (c == 35) = false := by
+      have : c ≠ 35 := fun e => hh (by simp [e])
+      simpa using this
+    simp only [hc, Bool.false_eq_true, if_false, hd]
+
+/-- Replacing one character of a data line by a byte outside the base64 alphabet
+(other than CR, LF, and '#' in first position) makes the line undecodable. -/
+theorem readLine_set_nonalpha (cfg : Cfg) (p : Bytes) (i : Nat) (v : UInt8)
+    (hi : i < (msgText p).length) (hv : Base64.decChar v = none) (h13 : v ≠ 13) (h10 : v ≠ 10)
+    (hh : ¬ (i = 0 ∧ v = 35)) :
+    readLine cfg ((msgText p).set i v) = .corrupt := by
+  apply readLine_corrupt_of_decode_none
+  · -- the first character is still not '#'
+    have h0 := msgText_head_ne_hash p
+    match hm : msgText p, msgText_ne_nil p with
+    | c0 :: rest, _ =>
+      rw [hm] at h0
+      cases i with
+      | zero =>
+        simp only [List.set_cons_zero, List.head?_cons]
+        intro e
+        exact hh ⟨rfl, by simpa using e⟩
+      | succ k => simpa using h0
+  · have hvs : Base64.isSkipped v = false := by simp [Base64.isSkipped, h13, h10]
+    have hfil : ((msgText p).set i v).filter (fun c => !Base64.isSkipped c) = (msgText p).set i v := by
+      apply List.filter_eq_self.mpr
+      intro c hc
+      rcases List.mem_or_eq_of_mem_set hc with h | rfl
+      · obtain ⟨n, hn, rfl⟩ := msgText_alpha p c h
+        simp [Base64.isSkipped_encChar hn]
+      · simp [hvs]
+    unfold Base64.decode
+    rw [hfil]
+    exact decodeGroups_none_of_mem _ v (List.mem_set hi v) hv
+
 end GnoVerif.C38
